@@ -145,6 +145,11 @@ fn run_hist(ts: &mut Toks) -> Option<String> {
     let mut open: HashMap<i64, Box<Runtime>> = HashMap::new();
     let mut frozen: HashMap<i64, &'static Runtime> = HashMap::new();
     let mut exprs: HashMap<i64, Expression<'static>> = HashMap::new();
+    // purity on the complete outcome (every field of an error, message and expression text included): (runtime, text, document) -> Debug of the result
+    let mut origin: HashMap<i64, (i64, String)> = HashMap::new();
+    let mut generation: i64 = 0;       // a runtime id can be given to a new runtime: (id, generation) names the runtime an expression was compiled on
+    let mut gen_of: HashMap<i64, i64> = HashMap::new();
+    let mut seen: HashMap<(i64, String, String), String> = HashMap::new();
     let mut obs: Vec<String> = vec![];
     let all: Vec<&str> = ts.t[ts.i..].to_vec();
     for op in all.split(|t| *t == ";") {
@@ -154,6 +159,8 @@ fn run_hist(ts: &mut Toks) -> Option<String> {
             "new" => {
                 let r: i64 = o.next()?.parse().ok()?;
                 frozen.remove(&r);
+                generation += 1;
+                gen_of.insert(r, generation);
                 open.insert(r, Box::new(Runtime::new()));
                 obs.push("-".into());
             }
@@ -237,6 +244,7 @@ fn run_hist(ts: &mut Toks) -> Option<String> {
                             // the compiled tree (with its offsets) is part of the observation
                             obs.push(pr_ast_line(e.as_ast()));
                             exprs.insert(h, e);
+                            origin.insert(h, (r * 1_000_000 + gen_of.get(&r).copied().unwrap_or(0), text.clone()));
                         }
                         Err(e) => {
                             exprs.remove(&h);
@@ -252,6 +260,9 @@ fn run_hist(ts: &mut Toks) -> Option<String> {
                 match exprs.get(&h).cloned() {
                     Some(e) => {
                         exprs.insert(h2, e);
+                        if let Some(o) = origin.get(&h).cloned() {
+                            origin.insert(h2, o);
+                        }
                         obs.push("-".into())
                     }
                     None => obs.push("BAD".into()),
@@ -271,8 +282,16 @@ fn run_hist(ts: &mut Toks) -> Option<String> {
                         let before = format!("{:?}", shared);
                         let r = e.search(shared.clone());
                         let after = format!("{:?}", shared);
+                        let full = format!("{:?}", r);
+                        let key = origin.get(&h).map(|(rt, text)| (*rt, text.clone(), before.clone()));
+                        let same = match key {
+                            Some(k) => *seen.entry(k).or_insert_with(|| full.clone()) == full,
+                            None => true,
+                        };
                         if before != after {
                             obs.push("MUTATED".into())
+                        } else if !same {
+                            obs.push("IMPURE".into())
                         } else {
                             obs.push(search_result(r))
                         }
